@@ -24,41 +24,63 @@ def sortedBy (lt : Int → Int → Bool) : List Int → Bool
   | [_] => true
   | x :: y :: r => !lt y x && sortedBy lt (y :: r)
 
-def stepOpt (ts : List String) : Option String :=
+/-- answer of one partition / selection call -/
+def answer (op : String) (cmp : Cmp) (rank : Int) (runs : List (List Int)) : String :=
+  if runs.isEmpty || runs.any (·.isEmpty) || rank < 0 then "bad-op" else
+  if runs.any (fun r => !sortedBy cmp.fn r) then "bad-op" else
+  let c : Ctx := { lt := cmp.fn, runs := (runs.map List.toArray).toArray }
+  let n := totalLen c
+  if op == "part" then
+    if rank.toNat > n then "bad-op" else
+    match runM (partitionM c rank.toNat) with
+    | .ok (offs, tr) =>
+      -- certificate: the proved-sound checker (Proofs/C08Checker.lean) run on this very result
+      -- … and the loop invariant of the refinement (Proofs/C08Inv.lean) evaluated at every intermediate state
+      let cert := offs.toList.all (fun x => decide (0 ≤ x)) &&
+        checkPartition cmp.fn runs rank.toNat (offs.toList.map Int.toNat) &&
+        (rank.toNat == n || checkRun c .partition rank.toNat)
+      s!"offs {showIntCsv offs.toList} cert {if cert then 1 else 0} tr {showTrace tr}"
+    | .error e => s!"model-failure {e}"
+  else
+    if rank.toNat ≥ n then "bad-op" else
+    match runM (selectionM c rank.toNat) with
+    | .ok ((v, off), tr) =>
+      if checkRun c .selection rank.toNat then s!"val {v} off {off} tr {showTrace tr}"
+      else s!"val {v} off {off} tr {showTrace tr} INVARIANT-VIOLATED"
+    | .error e => s!"model-failure {e}"
+
+/-- the runs loaded by `load` (the rank type of `p`/`s` does not exist in the model: ranks are naturals) -/
+abbrev St := Option (Cmp × List (List Int))
+
+def rankTypes : List String := ["long", "int", "llong", "size_t", "uint", "ushort"]
+
+def stepOpt (st : St) (ts : List String) : Option (St × String) :=
   match ts with
-  | op :: cmp :: rank :: runs => do
+  | "load" :: cmp :: runs => do
+    let cmp ← parseCmp cmp
+    let runs ← runs.mapM intCsv
+    if runs.isEmpty || runs.any (·.isEmpty) || runs.any (fun r => !sortedBy cmp.fn r) then pure (st, "bad-op")
+    else pure (some (cmp, runs), s!"loaded {runs.length}")
+  | [op, rt, rank] =>
+    if op != "p" && op != "s" then none else
+    match st with
+    | none => pure (st, "bad-op")
+    | some (cmp, runs) => do
+      let rank ← rank.toInt?
+      if !rankTypes.contains rt then pure (st, "bad-op") else
+      if rt == "ushort" && (runs.map List.length).sum > 60000 then pure (st, "bad-op") else
+      pure (st, answer (if op == "p" then "part" else "sel") cmp rank runs)
+  | op :: cmp :: rank :: runs =>
+    if op != "part" && op != "sel" then none else do
     let cmp ← parseCmp cmp
     let rank ← rank.toInt?
     let runs ← runs.mapM intCsv
-    if runs.isEmpty || runs.any (·.isEmpty) || rank < 0 then pure "bad-op" else
-    if runs.any (fun r => !sortedBy cmp.fn r) then pure "bad-op" else
-    let c : Ctx := { lt := cmp.fn, runs := (runs.map List.toArray).toArray }
-    let n := totalLen c
-    match op with
-    | "part" =>
-      if rank.toNat > n then pure "bad-op" else
-      match runM (partitionM c rank.toNat) with
-      | .ok (offs, tr) =>
-        -- certificate: the proved-sound checker (Proofs/C08Checker.lean) run on this very result
-        -- … and the loop invariant of the refinement (Proofs/C08Inv.lean) evaluated at every intermediate state
-        let cert := offs.toList.all (fun x => decide (0 ≤ x)) &&
-          checkPartition cmp.fn runs rank.toNat (offs.toList.map Int.toNat) &&
-          (rank.toNat == n || checkRun c .partition rank.toNat)
-        pure s!"offs {showIntCsv offs.toList} cert {if cert then 1 else 0} tr {showTrace tr}"
-      | .error e => pure s!"model-failure {e}"
-    | "sel" =>
-      if rank.toNat ≥ n then pure "bad-op" else
-      match runM (selectionM c rank.toNat) with
-      | .ok ((v, off), tr) =>
-        if checkRun c .selection rank.toNat then pure s!"val {v} off {off} tr {showTrace tr}"
-        else pure s!"val {v} off {off} tr {showTrace tr} INVARIANT-VIOLATED"
-      | .error e => pure s!"model-failure {e}"
-    | _ => none
+    pure (st, answer op cmp rank runs)
   | _ => none
 
-def step (_ : Unit) (ts : List String) : Unit × String :=
-  match stepOpt ts with
-  | some s => ((), s)
-  | none => ((), "bad-op")
+def step (st : St) (ts : List String) : St × String :=
+  match stepOpt st ts with
+  | some r => r
+  | none => (st, "bad-op")
 
-def main : IO Unit := Drv.loop () step
+def main : IO Unit := Drv.loop (none : St) step
